@@ -8,11 +8,13 @@ engine modes (greedy / reluctant) unless said otherwise, every row-limit guard v
 history of `Process`/`Flush` calls over any number of interleaved partitions — no bound on
 pattern size, stream length or number of partitions.
 
-Not proved (kept visible as `def … : Prop`): `reference_matcher_exact` — that the executable
-reference matcher of the oracle (`Spec.matchesFrom`) enumerates exactly `Spec.ValidMatch`.
+Not proved (kept visible as `def … : Prop`): `reference_pruning_complete` — that the pruned state key
+the driver gives the oracle's reference matcher loses no match (exactness is proved for the unpruned
+key, soundness for any key).
 -/
 import SsqlVerif.Proofs.CepCompleteRun
 import SsqlVerif.Proofs.CepLower
+import SsqlVerif.Proofs.CepWalk
 import SsqlVerif.Generated.Facts
 set_option autoImplicit false
 
@@ -249,15 +251,30 @@ theorem cep_complete_longest (q : Query ρ) (hv : q.pat.valid) (hw : 0 ≤ q.wit
   obtain ⟨m, hm, h1, h2, h3⟩ := run_then_flush_covers (c := cfgOf q false mr) rfl hw k ops hrowops r hr hra
   exact ⟨m, hm, by omega, by omega, fun he => by rw [← hrh]; exact h3 (by omega)⟩
 
-/-! ### 7. not proved -/
+/-! ### 7. the oracle's reference matcher -/
 
-/-- **Unproved.**  The executable reference matcher the oracle runs (`Spec.matchesFrom`, full
-classification as state key) enumerates exactly the valid matches of the declarative definition.
-Both are structural on the same pattern tree; the link is not proved, so what the oracle's
-`valid / longest / omitted` verdicts mean rests on reading `Spec.walk`. -/
-def reference_matcher_exact : Prop :=
-  ∀ (ρ : Type) (q : Query ρ) (rows : List ρ) (m : List (ρ × Sym)), q.keySyms = none →
-    (m ∈ matchesFrom q rows ↔ (ValidMatch q m ∧ m.map (·.1) = rows.take m.length))
+/-- The executable brute-force reference matcher the oracle runs (`Spec.matchesFrom`, recursion on
+the pattern, no automaton), with the classification itself as state key, reports exactly the valid
+matches of the declarative definition that start with the first of `rows`. -/
+theorem reference_matcher_exact (q : Query ρ) (hv : q.pat.valid) (hk : q.keySyms = none) (rows : List ρ)
+    (m : List (ρ × Sym)) :
+    m ∈ matchesFrom q rows ↔ (ValidMatch q m ∧ m.map (·.1) = rows.take m.length) :=
+  matchesFrom_exact q hv hk rows m
+
+/-- With any pruning key (the driver collapses the variables no DEFINE condition looks back at)
+everything the reference reports is a valid match. -/
+theorem reference_matcher_sound (q : Query ρ) (hv : q.pat.valid) (rows : List ρ) (m : List (ρ × Sym))
+    (h : m ∈ matchesFrom q rows) : ValidMatch q m ∧ m.map (·.1) = rows.take m.length :=
+  matchesFrom_sound q hv rows m h
+
+/-- **Unproved.**  Pruning the reference's search with a coarser state key loses no match length when
+the DEFINE conditions look at the classification of earlier rows only through the variables in the key. -/
+def reference_pruning_complete : Prop :=
+  ∀ (ρ : Type) (q : Query ρ) (ks : List Sym) (rows : List ρ), q.pat.valid →
+    (∀ (a : Sym) (h h' : List (ρ × Sym)) (r : ρ), h.map (·.1) = h'.map (·.1) →
+      (h.map fun x => if ks.contains x.2 then x.2 + 1 else 0) = (h'.map fun x => if ks.contains x.2 then x.2 + 1 else 0) →
+      q.define a h r = q.define a h' r) →
+    ∀ n, n ∈ validLens { q with keySyms := none } rows → n ∈ validLens { q with keySyms := some ks } rows
 
 end
 
